@@ -168,7 +168,10 @@ type constTable struct {
 // constTableOf: the contents of a package-level variable that is never written after its initialisation
 // (immutableVarInit) and whose initialiser is a composite literal of constants. nil when it is not such a table.
 func (c *Ctx) constTableOf(o types.Object) *constTable {
-	if o == nil {
+	if o == nil || o.Pkg() == nil {
+		return nil
+	}
+	if _, isVar := o.(*types.Var); !isVar {
 		return nil
 	}
 	key := "constTable:" + o.Pkg().Path() + "." + o.Name()
